@@ -917,7 +917,14 @@ def camp_c10(rnd, tier):
         for rep in range(2 if tier == "quick" else 6):
             ty = next(types)
             shapes = huff_input_shapes(rnd, "quick", ty, binary=(kind == "HWT")) if "H" in kind[:2] else tree_input_shapes(rnd, "quick", ty)
-            for name, s in rnd.sample(shapes, min(len(shapes), 6 if tier == "quick" else 14)):
+            picked = rnd.sample(shapes, min(len(shapes), 6 if tier == "quick" else 14))
+            if fam in ("QWT", "WT") and rep == 0:
+                # symbols wider than 32 / 64 bits: more than 16 / 32 quad levels
+                wide = [x for x in tree_input_shapes(rnd, "thorough", "u128") if x[0] in ("type_max", "pow2_33", "pow2_65", "pow2_100", "pow2_128")]
+                picked = picked + [(n2, s2, "u128") for (n2, s2) in rnd.sample(wide, 2)]
+            for item in picked:
+                name, s = item[0], item[1]
+                ty = item[2] if len(item) > 2 else ty
                 b.reset()
                 o = b.newt(kind, ty, rnd.choice(["new", "from_vec", "collect"]), s)
                 lc = legal_tree_calls(rnd, s, ty, fam)
@@ -1029,7 +1036,10 @@ def all_kind_objects(b, rnd, tier, small=False):
         for kind in ("QV", "RSQ256", "RSQ512"):
             o = b.newq(kind, "u16", "collect", s)
             out.append((o, "Q", s, "u16", kind))
-    for name, s in rnd.sample(bit_input_shapes(rnd, "quick"), 5) + [("empty", Seqn.from_values([]))]:
+    fixed = [("empty", Seqn.from_values([])),
+             ("sparse_long", Seqn.from_runs([([0, 0, 0, 1], 1500), ([0], 700), ([1, 0], 300)])),
+             ("dense_long", Seqn.from_runs([([1, 1, 1, 0], 2500), ([1], 900), ([0, 1, 1], 300)]))]
+    for name, s in rnd.sample(bit_input_shapes(rnd, "quick"), 5) + fixed:
         for kind, path in (("BV", "bools"), ("BVM", "bools"), ("RSN", "new"), ("RSW", "new"), ("DA0", "new"), ("DA1", "new")):
             o = b.newb(kind, path, s)
             out.append((o, "B", s, "usize", kind))
@@ -1069,8 +1079,48 @@ def rel_all(b, oa, ob, rel, fam, s, ty, kind, rnd):
             b.relo(oa, ob, rel, "select0", [], ks)
 
 
+def two_chain_freqs(depth):
+    """frequencies whose binary Huffman tree has two long chains hanging from the root:
+    the longest codes have depth + 1 bits and some of them start with a 1"""
+    x, y = 4, 3
+    ws = [x, x, y, y]
+    ca, cb = 2 * x, 2 * y
+    la, lb = ca - 1, cb - 1
+    ws += [la, lb]
+    for _ in range(max(0, depth - 2)):
+        na, nb = ca + la, cb + lb
+        lb = ca + 1
+        la = nb + 1
+        ca, cb = na, nb
+        ws += [la, lb]
+    return ws
+
+
 def camp_c11(rnd, tier):
     b = Beh()
+    # deep binary Huffman codes (more than 24 bits): too long for the specification to hold the
+    # value, but the round trip is a relation between the original and the copy
+    for depth in ([24] if tier == "quick" else [20, 23, 24, 25]):
+        ws = two_chain_freqs(depth)
+        runs = []
+        for sy, w in enumerate(ws):
+            k = 3
+            for i in range(k):
+                part = w // k + (1 if i < w % k else 0)
+                if part:
+                    runs.append(([sy], part))
+        rnd.shuffle(runs)
+        s = Seqn.from_runs(runs)
+        b.reset()
+        o = b.newt("HWT", "u8", "from_vec", s, nv=1)
+        d = b.conv(o, "serde")
+        b.eq(o, d)
+        n = len(s)
+        pos = clip_args([0, 1, 2, n // 3, n // 2, n - 2, n - 1, n, n + 1] + [rnd.randrange(n) for _ in range(40)] + s.boundaries()[:60])
+        cs = [sym(c) for c in range(len(ws))] + [sym(len(ws)), sym(255)]
+        b.relo(o, d, "serde", "get", [], pos)
+        b.relo(o, d, "serde", "rank", cs, pos[:12])
+        b.relo(o, d, "serde", "select", cs, [0, 1, 2, 3, 6, 100, -1])
     for rep in range(1 if tier == "quick" else 4):
         b.reset()
         for (o, fam, s, ty, kind) in all_kind_objects(b, rnd, tier):
@@ -1097,7 +1147,7 @@ def camp_c19(rnd, tier):
         for rep in range(1 if tier == "quick" else 3):
             ty = next(types)
             shapes = huff_input_shapes(rnd, "quick", ty, binary=(kind == "HWT")) if huff else tree_input_shapes(rnd, "quick", ty)
-            for name, s in rnd.sample(shapes, 5 if tier == "quick" else 12):
+            for name, s in rnd.sample(shapes, 5 if tier == "quick" else 12) + [("empty", Seqn.from_values([])), ("one", Seqn.from_values([min(tmax(ty), 2)]))]:
                 b.reset()
                 objs = [b.newt(kind, ty, p, s) for p in ("new", "from_vec", "collect")]
                 for i in range(3):
@@ -1196,6 +1246,9 @@ def camp_c04(rnd, tier):
                       ("single", Seqn.from_runs([([min(T, 6)], 70)])), ("tmax", Seqn.from_values([0, T, T, 1])),
                       ("small", Seqn.from_values(rand_seq(rnd, 40, [0, 1, 2, 3, min(T, 77)]))),
                       ("b256", Seqn.from_values(rand_seq(rnd, rnd.choice([255, 256, 257, 512, 2048]), list(range(min(T, 20) + 1)))))]
+            if "Pfs" in kind:
+                # exact multiples of the prefetch sampling period, at least two levels
+                shapes += [("pfs%d" % m, Seqn.from_values(rand_seq(rnd, m, list(range(min(T, 20) + 1))))) for m in (2048, 4096)]
             if tier == "thorough":
                 shapes += rnd.sample(huff_input_shapes(rnd, "quick", ty, kind == "HWT") if huff else tree_input_shapes(rnd, "quick", ty), 6)
             for name, s in shapes:
@@ -1327,6 +1380,10 @@ def space_tree_inputs(rnd, tier, ty, huff):
         out.append(("big_uniform_m%d" % mx, runs_profile(rnd, alph, w)))
         w = [max(1, int(big * 0.5 ** (i + 1))) for i in range(len(alph))]
         out.append(("big_skewed_m%d" % mx, runs_profile(rnd, alph, w)))
+    # one dominant symbol and many moderately frequent ones (counts above 2^16, very different)
+    dom = 1500000 if tier == "quick" else 4000000
+    out.append(("huge_dominant", runs_profile(rnd, list(range(16)), [dom] + [70000] * 15)))
+    out.append(("huge_one_run", Seqn.from_runs([([0], dom)] + [([1 + (i % 9)], 1) for i in range(78)])))
     out.append(("big_single", Seqn.from_runs([([min(T, 9)], big)])))
     out.append(("big_two", runs_profile(rnd, [0, min(T, 200)], [big - 5, 5])))
     return out
@@ -1341,9 +1398,9 @@ def camp_space(rnd, tier, which):
         huff = kind.startswith("H")
         ty = next(types)
         for name, s in space_tree_inputs(rnd, tier, ty, huff):
-            for path in (["new", "from_vec", "collect"] if (tier == "thorough" or len(s) <= 20001) else [next(paths)]):
+            for path in (["new", "from_vec", "collect"] if ((tier == "thorough" and len(s) < 1200000) or len(s) <= 20001) else [next(paths)]):
                 b.reset()
-                o = b.newt(kind, ty, path, s)
+                o = b.newt(kind, ty, path, s, nv=1 if len(s) > 500000 else 0)
                 b.space(o)
     if which in ("plain", "all"):
         for n in ([0, 1, 1000, 50000, 400000] if tier == "quick" else [0, 1, 255, 256, 257, 1000, 50000, 400000, 2000000]):
@@ -1357,12 +1414,29 @@ def camp_space(rnd, tier, which):
             for path in ("new", "from"):
                 o = b.newb("RSW", path, bits)
                 b.space(o)
+            if n > 0:
+                # built from positions with a huge final gap, and from an all-zero vector
+                gap = Seqn.from_runs([([1, 0, 1], 3), ([0], max(0, n - 10)), ([1], 1)])
+                for path in ("positions", "with_zeros"):
+                    bv = b.newb("BVM", path, gap, n=n)
+                    b.space(bv)
+                    x = b.conv(bv, "into_bv", keep=0)
+                    for m in ("rs_wide", "rs_narrow", "da1"):
+                        y = b.conv(x, m, keep=1)
+                        b.space(y)
             if which == "all":
                 o = b.newq("QV", "u8", "collect", q)
                 b.space(o)
-                for kind, path in (("RSN", "new"), ("DA0", "new"), ("DA1", "new"), ("DA1", "bools"), ("BV", "bools"), ("BV", "from_bvm"), ("BVM", "bools"), ("BVM", "with_zeros")):
+                for kind, path in (("RSN", "new"), ("DA0", "new"), ("DA1", "new"), ("DA1", "bools"), ("BV", "bools"), ("BV", "from_bvm"), ("BVM", "bools"), ("BVM", "with_zeros"),
+                                   ("BVM", "with_capacity"), ("BVM", "bvm_new")):
                     o = b.newb(kind, path, bits, n=n)
                     b.space(o)
+                # skewed densities for the select inventories
+                for dens in ([1] + [0] * 63, [0] + [1] * 63, [1] + [0] * 999):
+                    sk = Seqn.from_runs([(dens, max(1, n // len(dens)))])
+                    for kind in ("DA0", "DA1", "RSN", "RSW"):
+                        o = b.newb(kind, "new", sk)
+                        b.space(o)
     return b
 
 
@@ -1469,8 +1543,15 @@ def camp_c17(rnd, tier):
     for ln in range(0, 5 if tier == "thorough" else 4):
         for w in itertools.product(vals4, repeat=ln):
             b.util("text_remap", bytes=list(w))
+    allb = list(range(256))
+    b.util("text_remap", bytes=allb)
+    b.util("text_remap", bytes=allb[::-1] + [255, 0, 128])
+    b.util("text_remap", bytes=[x for x in allb if x != 77] * 2)
+    sh = list(allb) * 2
+    rnd.shuffle(sh)
+    b.util("text_remap", bytes=sh)
     for _ in range(40 if tier == "quick" else 400):
-        k = rnd.choice([1, 2, 5, 50, 256])
+        k = rnd.choice([1, 2, 5, 50, 255, 256])
         alph = rnd.sample(range(256), k)
         b.util("text_remap", bytes=[rnd.choice(alph) for _ in range(rnd.choice([1, 10, 300]))])
     return b
@@ -1507,6 +1588,27 @@ def query_batch(rnd, fam, s, ty, kind):
     return batch
 
 
+def reorder_batch(rnd, batch, n):
+    """the same queries in descending and in random order, plus scans of consecutive indices:
+    an answer must not depend on what was asked before"""
+    out = []
+    for q in batch:
+        as_ = list(q["as"])
+        out.append(q)
+        out.append({"m": q["m"], "cs": q["cs"], "as": as_[::-1]})
+        sh = list(as_)
+        rnd.shuffle(sh)
+        out.append({"m": q["m"], "cs": q["cs"], "as": sh})
+        if q["m"] in ("select1", "select0", "select", "rank1", "rank0", "rank", "get"):
+            # many random arguments in random order: pairs (large, then small) inside one sampling bucket
+            out.append({"m": q["m"], "cs": q["cs"], "as": [rnd.randrange(0, n + 1) for _ in range(80)]})
+            st = rnd.randrange(0, max(1, n // 2))
+            scan = list(range(st, min(st + 120, n + 1)))
+            big = [x for x in (n // 2, n // 2 + 1, n // 3, 5, 900, 901, 100, 3, n // 2) if 0 <= x <= n]
+            out.append({"m": q["m"], "cs": q["cs"], "as": scan + big + scan[::-1]})
+    return out
+
+
 def camp_c18(rnd, tier):
     b = Beh()
     for rep in range(1 if tier == "quick" else 3):
@@ -1514,12 +1616,12 @@ def camp_c18(rnd, tier):
         for (o, fam, s, ty, kind) in all_kind_objects(b, rnd, tier):
             if kind == "BVM":
                 continue
-            batch = query_batch(rnd, fam, s, ty, kind)
+            batch = reorder_batch(rnd, query_batch(rnd, fam, s, ty, kind), len(s))
             b.pure(o, batch)
             # the sequential answers are themselves judged by the clause tables
             for q in batch:
                 b.qg(o, q["m"], q["cs"], q["as"])
-            b.thr(o, rnd.choice([2, 8, 16]), rnd.choice([3, 20]) if tier == "quick" else rnd.choice([20, 200]), batch)
+            b.thr(o, rnd.choice([2, 8, 16]), rnd.choice([10, 30]) if tier == "quick" else rnd.choice([30, 200]), batch)
             b.pure(o, batch)
             b.drop(o)
     return b
